@@ -936,6 +936,20 @@ def np_zeros(I, args, kw):
     return _filled(I, args, kw, 0)
 
 
+@model(np.full)
+def np_full(I, args, kw):
+    """np.full(shape, fill, dtype=None): for the two numeric kinds the engine carries (int64 as
+    mathematical integers, float64 as reals) the fill value is stored unchanged; narrower dtypes
+    are not modelled (their wrap-around is only exercised by the native stand-ins)."""
+    shp, fill = args[0], args[1]
+    dt = kw.get("dtype", args[2] if len(args) > 2 else None)
+    kind = dtype_kind(dt) if dt is not None else ("int" if isinstance(fill, int) and not isinstance(fill, bool) or (isinstance(fill, SV) and fill.k == "int") else "real")
+    shape = tuple(shp) if isinstance(shp, tuple) else ((tuple(shp.items)) if isinstance(shp, PList) else (shp,))
+    shape = tuple(s_ if isinstance(s_, int) else (s_.e if isinstance(s_, SV) else s_) for s_ in shape)
+    term = to_z3(fill, "real") if kind == "real" else to_z3(fill, "int")
+    return Arr(shape, lambda *idx, _t=term: _t, kind, "full")
+
+
 @model(np.ones_like)
 def np_ones_like(I, args, kw):
     return _filled(I, args, kw, 1, like=True)
